@@ -23,27 +23,38 @@ from common import enc_ints, enc_rats, enc_crats, enc_rat, dec_list, dec_rat, de
 
 META = {
     'rule': 'cases = seeded random matrices with small dyadic entries, n, m = 1..7, in CSR / CSC / BSR (block sizes 1..3, '
-            'rectangular blocks) / COO storage with unsorted and duplicated entries, explicit zeros, empty rows, zero, '
-            'missing and negative diagonals, real and complex, every option of every utility (copy, norm_eq, inv, '
-            'theta grid incl. ties at the threshold, diagonal, lump, k, block size, BtBinv given or not); '
-            'a case is non-trivial when the matrix has >= 2 stored entries and the utility changes or selects something; '
-            'distinct = distinct (utility, options, input); spectral part: Hermitian matrices n = 1..400 (dense random, '
-            'Poisson, clustered and indefinite spectra, complex), random start vectors from the seeded np.random',
-    'search_only': ['approximate_spectral_radius >= 0.9 rho (depends on the random start vector; default or stronger '
-                    'maxiter/restart only)',
-                    'approximate_spectral_radius <= rho on the real code (ritz_le_rho is about exact arithmetic and an '
-                    'orthonormal Krylov basis; LAPACK eigenvalues trusted)',
-                    'condest == cond_2 when Arnoldi/Lanczos completes (tolerance 1e-6, cond <= 300), cond == numpy.linalg.cond',
-                    'truncate_rows: the literal qsort model is compared exactly with the kernel, no theorem that it sorts; '
-                    'the k-largest rule is judged by a dense oracle',
-                    'format conversions done by SciPy (tocsr / tobsr / tocoo / asformat) are taken from SciPy'],
-    'partial': [],
-    'assumptions': ['binary64 rounding is outside the model: exact comparison on dyadic inputs, tolerance 1e-9 where a '
-                    'quotient or square root is not dyadic',
-                    'block pseudo-inverses (Jacobi SVD kernel / LAPACK gelss) are compared with the exact Moore-Penrose '
-                    'inverse on blocks whose non-zero singular values exceed 1e-3 ||A||',
-                    'filter_operator: rows whose local Gram matrix B_J^H B_J is singular or has condition number > 1e6 '
-                    'are only checked for the pattern'],
+            'rectangular blocks, non-contiguous data) / COO storage with unsorted and duplicated entries, explicit zeros, empty '
+            'rows, zero, missing and negative diagonals, real, complex, float32 and integer data, every option of every utility '
+            '(copy, norm_eq, inv, theta grid incl. ties at the threshold, diagonal, lump, k, block sizes 1..8 with singular '
+            'blocks, cache histories, BtBinv given or not); a case is non-trivial when the matrix has >= 2 stored entries; '
+            'distinct = distinct (utility, options, input); spectral part: Hermitian matrices n = 1..400 (dense random, Poisson, '
+            'clustered, indefinite, +-1 and rank-one spectra, complex), start vectors from np.random seeded per case; '
+            'condition part: dense n = 1..8, cond <= 300, real/complex, Hermitian or not, maxiter >= n',
+    'search_only': ['approximate_spectral_radius >= 0.9 rho (depends on the random start vector; checked for the default or '
+                    'stronger maxiter / restart / tol only)',
+                    'approximate_spectral_radius <= rho (1 + 1e-10) on the real code (ritz_le_rho is about exact arithmetic and '
+                    'an orthonormal Krylov basis; LAPACK eigenvalues trusted)',
+                    'condest == cond_2 when Arnoldi/Lanczos completes (tolerance 1e-6; observed 1e-11), cond == numpy.linalg.cond',
+                    'copy semantics (input untouched and no shared data when copy=True; filters and truncation never modify '
+                    'their input): hashes of the input arrays before/after',
+                    'format conversions done by SciPy (tocsr / tocsc / tobsr / tocoo / asformat) are taken from SciPy: the '
+                    'models of the filters and of truncate_rows start from the converted CSR / CSC arrays',
+                    'get_block_diag / scale_block_inverse / filter_operator: the Lean models are the dense definitions (exact '
+                    'Moore-Penrose inverse, exact local inverse), compared with tolerance 1e-8',
+                    'utility calls run in forked child processes: a call that kills the interpreter is reported with its input'],
+    'partial': ['truncate_row_spec: proved from a per-instance certificate (truncCheck, decided by the driver for every row of '
+                'every compared case and reported as sorted-ok); there is no proof that the literal quicksort model sorts '
+                'every input',
+                'filter_operator_row / penrose_unique / proj_constraint are Mathlib-matrix statements; the executable dense '
+                'models filterOp / Mat.pinv are tied to them per instance (exact re-check of A_f B = Bf and of the four '
+                'Penrose equations inside the driver) rather than by a refinement proof'],
+    'assumptions': ['binary64 rounding is outside the model: exact comparison on dyadic inputs, tolerance 1e-9 where a quotient '
+                    'or square root is not dyadic; complex moduli equal or within 1e-12 of a threshold are not judged',
+                    'block pseudo-inverses (Jacobi SVD kernel / LAPACK gelss) are compared with the exact Moore-Penrose inverse '
+                    'on blocks whose non-zero singular values exceed 0.05 ||A||',
+                    'filter_operator: block rows whose local Gram matrix B_J^H B_J is singular or has condition number > 1e6 '
+                    'are only checked for the pattern',
+                    'complex CSC scaling is not supported by the kernels (TypeError) and is not generated ("complex where supported")'],
 }
 
 FK_DIAG_NONCSR = 'filter-rows-diagonal-non-csr-noop'
@@ -183,7 +194,7 @@ def compress(rng, D, fmt, *, unsorted=False, dup=False, zeros=False, bs=None, no
 
 
 def rand_spec(rng, t, *, square=False, fmts=('csr', 'csc', 'bsr', 'coo'), cplx=None, dup_ok=True, diag=None, nmax=6, noncontig_ok=False,
-              real_fmts=()):
+              real_fmts=(), shape=None):
     """a random matrix specification + its dense value + feature set"""
     fmt = fmts[t % len(fmts)]
     cplx = bool(rng.random() < 0.3) if cplx is None else cplx
@@ -197,12 +208,20 @@ def rand_spec(rng, t, *, square=False, fmts=('csr', 'csc', 'bsr', 'coo'), cplx=N
         nb, mb = int(rng.integers(1, 4)), int(rng.integers(1, 4))
         if square:
             mb = nb
+        elif shape == 'tall':
+            nb, mb = max(nb, mb) + 1, min(nb, mb)
+        elif shape == 'wide':
+            nb, mb = min(nb, mb), max(nb, mb) + 1
         n, m = nb * R, mb * C
         bs = (R, C)
         feats.add(f'bs{R}x{C}')
     else:
         n = int(rng.integers(1, nmax + 1))
         m = n if square else int(rng.integers(1, nmax + 1))
+        if shape in ('tall', 'wide') and not square:
+            a = int(rng.integers(1, nmax))
+            b = int(rng.integers(a + 1, nmax + 1))
+            n, m = (b, a) if shape == 'tall' else (a, b)
     if n != m:
         feats.add('rectangular')
     dg = None
@@ -330,9 +349,23 @@ class Item:
         self.lines.append((line, compare, impl))
 
 
+def _lean(ctx, lines):
+    """one batch through the Lean driver; a driver that fails to start (the compiled files are being rebuilt by a
+    concurrent build) is retried twice"""
+    import time
+    from common import InfraError
+    for attempt in range(3):
+        try:
+            return ctx.lean(lines)
+        except InfraError:
+            if attempt == 2:
+                raise
+            time.sleep(10)
+
+
 def flush(ctx, items):
     lines = [ln for it in items for (ln, _c, _i) in it.lines]
-    outs = ctx.lean(lines) if lines else []
+    outs = _lean(ctx, lines) if lines else []
     k = 0
     for it in items:
         ctx.case(key=it.key, nontrivial=it.nontrivial,
@@ -379,6 +412,10 @@ def _cmp_csrdata_dense(reply, indices, indptr, shape, dense, cplx, tol, field=No
 
 
 def _cmp_rows_dense(reply, shape, cplx, transpose, dense, tol=1e-12):
+    if reply.count(';') == 3:          # truncation: the sort certificate of the model comes last
+        reply, cert = reply.rsplit(';', 1)
+        if cert != 'sorted-ok':
+            return 'the sort certificate of the model failed (the model quicksort did not sort this row)'
     return None if close(rows_to_dense(reply, shape, cplx, transpose=transpose), dense, tol) else 'dense values differ'
 
 
@@ -427,7 +464,9 @@ def _cmp_pinv(o, out, cplx):
 
 
 def _cmp_trunc_kernel(o, Aj, Ax, cplx):
-    _p, j, x = o.split(';')
+    _p, j, x, cert = o.split(';')
+    if cert != 'sorted-ok':
+        return 'the sort certificate of the model failed (the model quicksort did not sort this row)'
     if dec_list(j, int) != list(Aj):
         return 'column order after the sort differs'
     return _cmp_vals(x, Ax, cplx)
@@ -670,7 +709,10 @@ THETAS = [0.0, 0.25, 0.5, 0.75, 0.125, 0.5, 0.9375, 0.375]
 
 def gen_filter(rng, t):
     kind = ['rows', 'cols', 'rows', 'diag', 'lump', 'trunc', 'cols'][t % 7]
-    spec, D, feats = rand_spec(rng, t // 7, square=bool(rng.random() < 0.5), nmax=7)
+    u = rng.random()
+    # the index-shift trick of the max rule is sensitive to the shape: rows on tall, columns on wide matrices
+    shape = ('wide' if kind == 'cols' else 'tall') if u < 0.4 else None
+    spec, D, feats = rand_spec(rng, t // 7, square=bool(u >= 0.7), nmax=7, shape=shape)
     c = {'op': 'filter', 'kind': kind, 'A': spec}
     if kind == 'trunc':
         c['k'] = int(rng.integers(0, 5))
